@@ -24,3 +24,17 @@ package random
 //@   ensures randoms_frame: forall i:Bytes :: !old(has(rqueue, height - 1, i)) ==> has(randoms, i) == old(has(randoms, i)) && get(randoms, i) == old(get(randoms, i))
 //@   nopanic
 //@ end
+
+// Genesis export (C12, C18): every pending request is listed under its due height - several requests due at the same
+// height are all listed (the k-th one of that height, in queue order, at position k of the height's list).
+//@ func ExportGenesis
+//@   property C12, C18
+//@   returns gs
+//@   uses cnt0(itseqof(rqueue), 0)
+//@   uses cntS(itseqof(rqueue), 0, 0)
+//@   uses cntMono(itseqof(rqueue), 0, 0, 0)
+//@   uses hkeyInj(0, 0)
+//@   ensures complete: forall h:Int :: forall i:Bytes :: has(rqueue, h, i) ==> has(gs.PendingRandomRequests, keeper.HKEY(h))
+//@                        && 0 <= keeper.CNT(it_seq, itpos(h, i), h) && keeper.CNT(it_seq, itpos(h, i), h) < len(get(gs.PendingRandomRequests, keeper.HKEY(h)).Requests)
+//@                        && get(gs.PendingRandomRequests, keeper.HKEY(h)).Requests[keeper.CNT(it_seq, itpos(h, i), h)] == get(rqueue, h, i)
+//@ end
